@@ -428,6 +428,18 @@ DIM_POOLS = [["x", "y", "z"], ["V", "n", "r"], ["v", "r", "n"], ["a", "ab", "abc
 PREFIX_LABELS = ["m", "mx", "mxy", "mxyz", "mxyzw"]
 
 
+def add_valid(rng, fc):
+    """an explicit validity mask (invalid cells keep their non-zero values)"""
+    cells = fc["n"][0] * fc["n"][1] * fc["n"][2]
+    kind = rng.choice(["random", "random", "none-valid", "one-invalid"])
+    mask = [int(rng.random() < 0.5) for _ in range(cells)] if kind == "random" else \
+        ([0] * cells if kind == "none-valid" else [1] * cells)
+    if kind == "one-invalid":
+        mask[rng.randrange(cells)] = 0
+    fc["valid"] = dict(mode=rng.choice(["array", "array", "callable", "setter", "intarray", "norm"]), mask=mask)
+    return fc
+
+
 def dress(rng, fc):
     """the same field request in other argument representations (types must not matter)"""
     p = [unhex(x) for x in fc["p1"] + fc["p2"]]
@@ -439,6 +451,8 @@ def dress(rng, fc):
     fc["ctype"] = rng.choice(ctypes)
     fc["ntype"] = rng.choice(list(NTYPES))
     fc["layout"] = rng.choice(LAYOUTS)
+    if rng.random() < 0.6:
+        add_valid(rng, fc)
     fc["wpath"] = rng.choice(["str", "Path"])
     fc["rpath"] = rng.choice(["str", "Path"])
     if rng.random() < 0.4:
@@ -509,7 +523,7 @@ def gen_state(rng, tier, i):
         s_ = 1.0 if exact else max(abs(unhex(x)) for x in f["p1"] + f["p2"]) or 1.0
         ops = []
         for _ in range(rng.randint(1, 3)):
-            k = rng.choice(["translate", "scale", "rtranslate", "rscale", "arraywrite"] + (["frot"] if want_rot else []))
+            k = rng.choice(["translate", "scale", "rtranslate", "rscale", "arraywrite", "setvalid"] + (["frot"] if want_rot else []))
             if k in ("rtranslate", "rscale") and f["subs"]:
                 k = "translate"
             if k in ("translate", "rtranslate"):
@@ -522,8 +536,12 @@ def gen_state(rng, tier, i):
             elif k == "frot":
                 a1, a2 = rng.sample(["x", "y", "z"], 2)
                 ops.append([k, a1, a2, rng.choice([1, 3, -1, 2])])
+            elif k == "setvalid":
+                ops.append([k, rng.getrandbits(30)])
             else:
                 ops.append([k])
+        if rng.random() < 0.5 and not want_rot:
+            add_valid(rng, f)
         return dict(kind="state", scen=scen, field=f, ops=ops, rep=rep_)
     if scen == "meshrot":
         f = gen_field(rng, tier, exact=True, subs=rng.random() < 0.4, maxn=4, vcls="index")
@@ -542,6 +560,9 @@ def gen_state(rng, tier, i):
     if scen == "stems":
         f2["subs"] = [] if rng.random() < 0.5 else gen_subs(rng, [min(unhex(a), unhex(b)) for a, b in zip(f1["p1"], f1["p2"])],
                                                             [max(unhex(a), unhex(b)) for a, b in zip(f1["p1"], f1["p2"])], f1["n"])
+    for f_ in (f1, f2):
+        if rng.random() < 0.5:
+            add_valid(rng, f_)
     variant = None
     if scen == "stale":
         variant = rng.choice(["over", "over", "over_other", "over_subs", "nosave", "fresh_none"])
@@ -820,9 +841,25 @@ def make_field(fc, mesh=None):
     mesh = make_mesh(fc) if mesh is None else mesh
     arr = relayout(field_array(fc), fc.get("layout"))      # same values, other strides / flags
     kw = {}
+    # explicit validity: the file stores the values of EVERY cell, valid or not
+    vs = fc.get("valid")
+    mask = None
+    if vs:
+        mask = np.array(vs["mask"], dtype=bool).reshape(*fc["n"])
+        if vs["mode"] == "array":
+            kw["valid"] = mask
+        elif vs["mode"] == "intarray":
+            kw["valid"] = mask.astype(np.int64)
+        elif vs["mode"] == "callable":
+            kw["valid"] = lambda p, _m=mask, _mesh=mesh: bool(_m[tuple(_mesh.point2index(p))])
+        elif vs["mode"] == "norm":
+            kw["valid"] = "norm"
     if fc.get("dtype"):
         kw["dtype"] = arr.dtype
-    return df.Field(mesh, nvdim=fc["nv"], value=arr, vdims=fc["vdims"], unit=fc["unit"], **kw)
+    fld = df.Field(mesh, nvdim=fc["nv"], value=arr, vdims=fc["vdims"], unit=fc["unit"], **kw)
+    if vs and vs["mode"] == "setter":
+        fld.valid = mask                                    # validity assigned after construction
+    return fld
 
 
 def patharg(path, how):
@@ -1409,6 +1446,9 @@ def run_state(case):
                         fld.mesh.region.scale(unhex(op[1]), inplace=True)
                     elif op[0] == "frot":
                         fld.rotate90(op[1], op[2], k=op[3], inplace=True)
+                    elif op[0] == "setvalid":
+                        r_ = np.random.RandomState(op[1])
+                        fld.valid = r_.rand(*fld.array.shape[:3]) < 0.5
                     elif op[0] == "arraywrite":
                         fld.array[...] *= 2.0
                         fld.array[0, 0, 0, 0] = 7.5
